@@ -16,7 +16,7 @@ from vf.refmodels import compact_B_from_mats, model_value, ref_cauchy_point, ref
 ID = "C09"
 LEVEL = "exploration"
 RULE = (
-    "Hypothesis draws (x, g, box, 0..maxcor positive-curvature pairs) as in C08(ii), n=1..10; the harness computes the reference Cauchy point and c = W'(xc-x) itself and calls "
+    "Hypothesis draws (x, g, box, 0..maxcor positive-curvature pairs) as in C08(ii) (incl. inert variables whose reduced step component is exactly zero), n=1..10; the harness computes the reference Cauchy point and c = W'(xc-x) itself and calls "
     "lbfgsb.subspacemin.subspace_minimization; plus the calls intercepted in real convex box runs. Oracle: active variables bit-identical to xc, point equal to the dense reduced-Newton reference "
     "truncated by the largest alpha<=1 (1e-7 relative), model value not above m(xc), descent direction. non-trivial = the free step is truncated by the box (alpha*<1) or the free set is a proper "
     "non-empty subset with >=1 pair in memory; distinct = distinct input"
@@ -88,7 +88,7 @@ def run_case(spec, stats=None):
     if stats is not None:
         nf = int(free.sum())
         nt = (alpha < 1.0 and nf > 0) or (0 < nf < n and npairs >= 1)
-        stats.case(spec, nt, [f"free={'none' if nf == 0 else 'all' if nf == n else 'some'}", f"truncated={alpha < 1.0}", f"pairs={min(npairs, 3)}{'+' if npairs > 3 else ''}", "src=hyp"])
+        stats.case(spec, nt, [f"free={'none' if nf == 0 else 'all' if nf == n else 'some'}", f"truncated={alpha < 1.0}", f"pairs={min(npairs, 3)}{'+' if npairs > 3 else ''}", "src=hyp", f"inert={bool(spec.get('inert'))}"])
 
 
 def intercepted_body(pspec, stats):
